@@ -42,10 +42,19 @@ class C39(E1Prop):
         w = World(0, getattr(self, 'repo', None))
         try:
             res.lines.append('ok')
+            accepted = True
             for i, op in enumerate(c['ops']):
-                res.lines.append(w.apply(op))
+                ans = w.apply(op)
+                res.lines.append(ans)
                 res.lines.append(w.dump())
                 res.n_ops = i + 1
+                if op.startswith('commit') and ans != 'ok 0':     # (a re-sent group bunch is answered 400 without harm; a refused commit is not)
+                    accepted = False
+            if not accepted:
+                # the property is about batches whose submission went through; a prefix with a refused request (only reachable through
+                # shrinking or a generator slip) is compared with the model but not handed to the driver loops
+                res.tags.append('prefix-with-refused-request')
+                return res
             act = actors.Actors(w, random.Random(c.get('aseed', 0)))
             fail = None
             for a in c.get('actors', []):
